@@ -18,6 +18,37 @@ type Party struct {
 	Identity  age.Identity // nil for U
 	Ref       refage.Key   // nil for U
 	Pass      string       // for S
+	Members   []*Party     // for G: a group recipient that wraps for every member
+}
+
+// Group is ONE recipient value that returns several stanzas: those of its
+// members, in order (a team key, a multi-slot token).
+type Group struct{ Members []age.Recipient }
+
+func (g *Group) Wrap(fileKey []byte) ([]*age.Stanza, error) {
+	var out []*age.Stanza
+	for _, m := range g.Members {
+		s, err := m.Wrap(fileKey)
+		if err != nil {
+			return nil, err
+		}
+		out = append(out, s...)
+	}
+	return out, nil
+}
+
+// Flatten replaces every group party by its members: the parties in the order
+// in which their stanzas appear in the header.
+func Flatten(ps []*Party) []*Party {
+	var out []*Party
+	for _, p := range ps {
+		if p.Kind == 'G' {
+			out = append(out, Flatten(p.Members)...)
+		} else {
+			out = append(out, p)
+		}
+	}
+	return out
 }
 
 // Unknown is a harness-defined recipient that emits stanzas of types no
@@ -136,6 +167,17 @@ func buildWorld() {
 		world[name] = &Party{Name: name, Kind: 'U', Recipient: &Unknown{Touch: appendKeyID(n), Stanzas: []*age.Stanza{
 			{Type: "key-id-appender", Args: []string{name}, Body: make([]byte, 32)}}}}
 	}
+	// G1, G2: group recipients — one recipient value, several stanzas
+	for name, members := range map[string][]string{"G1": {"X1", "X2", "X3"}, "G2": {"E1", "X4", "U1", "R1"}} {
+		g := &Party{Name: name, Kind: 'G'}
+		var rs []age.Recipient
+		for _, m := range members {
+			g.Members = append(g.Members, world[m])
+			rs = append(rs, world[m].Recipient)
+		}
+		g.Recipient = &Group{Members: rs}
+		world[name] = g
+	}
 	// U4: a stanza whose argument line is longer than any default I/O buffer
 	long := make([]byte, 5000)
 	for i := range long {
@@ -145,7 +187,7 @@ func buildWorld() {
 		{Type: "long-args", Args: []string{string(long), "tail"}, Body: make([]byte, 100)}}}}
 }
 
-// P returns the named party: X1..X4, E1..E3, R1..R6, A1..A3, S1, S2, U0..U4, and
+// P returns the named party: X1..X4, E1..E3, R1..R6, A1..A3, G1, G2, S1, S2, U0..U4, and
 // XN<anything>: further native parties made on demand (for very long lists).
 func P(name string) *Party {
 	worldOnce.Do(buildWorld)
